@@ -211,3 +211,11 @@ package trend
 //@ ensures[C04] forall kk :: 0 <= kk && kk < len(result0) ==> hor(result0, kk) <= max(hor(high, kk + (kdj.IdlePeriod())), max(hor(low, kk + (kdj.IdlePeriod())), hor(closing, kk + (kdj.IdlePeriod()))))
 //@ ensures[C04] forall kk :: 0 <= kk && kk < len(result1) ==> hor(result1, kk) <= max(hor(high, kk + (kdj.IdlePeriod())), max(hor(low, kk + (kdj.IdlePeriod())), hor(closing, kk + (kdj.IdlePeriod()))))
 //@ ensures[C04] forall kk :: 0 <= kk && kk < len(result2) ==> hor(result2, kk) <= max(hor(high, kk + (kdj.IdlePeriod())), max(hor(low, kk + (kdj.IdlePeriod())), hor(closing, kk + (kdj.IdlePeriod()))))
+
+//@ func Kama.Compute
+//@ requires k.ErPeriod >= 1 && consumed(closings) == 0
+//@ ensures[C02] len(result) == max(0, len(closings) - (k.IdlePeriod()))
+//@ ensures[C03] consumed(closings) == len(closings) && closed(result)
+//@ ensures[C04] forall kk :: 0 <= kk && kk < len(result) ==> hor(result, kk) <= hor(closings, kk + (k.IdlePeriod()))
+//@ loop#0 invariant consumed(closingsSplice[2]) == sent(kama) + 1 && consumed(scs) == sent(kama) && !closed(kama)
+//@ loop#0 invariant forall j :: 0 <= j && j < sent(kama) ==> hor(kama, j) <= hor(closings, j + k.ErPeriod)
